@@ -18,6 +18,14 @@ def gen_binary(tier, rng):
         b = rand_operand(rng, shape=s2)
         if "poly" not in a and "poly" not in b:
             a = {"poly": rand_poly(rng, shape=s1)}
+        if rng.random() < 0.25:
+            # same indeterminates listed in different orders on the two sides, e.g. ('q1','q0') * ('q0','q1')
+            from .gen import permute_names
+            names = sorted(rng.sample(["q0", "q1", "q2", "q10"], rng.choice([2, 2, 3])), key=lambda n: int(n[1:]))
+            a = {"poly": permute_names(rng, rand_poly(rng, shape=s1, names=names))}
+            b = {"poly": rand_poly(rng, shape=s2, names=names)}
+            if rng.random() < 0.5:
+                a, b = b, a
         yield {"a": a, "b": b, "op": rng.choice(["add", "sub", "mul"]), "via": rng.choice(["operator", "numpoly", "numpy"])}
 
 
